@@ -28,12 +28,14 @@ def rule_alphabet(ctx, py):
     # special characters of the tokeniser, read from its source: separators and exponent characters
     special = set(" \t\n")
     for n in ast.walk(f):
-        if isinstance(n, ast.Compare) and isinstance(n.ops[0], ast.In) and isinstance(n.comparators[0], ast.List):
+        if isinstance(n, ast.Compare) and isinstance(n.ops[0], ast.In) and \
+                isinstance(n.comparators[0], (ast.List, ast.Tuple, ast.Set, ast.Constant)):
             try:
                 vals = ast.literal_eval(n.comparators[0])
             except Exception:
                 continue
-            if all(isinstance(v, str) and len(v) == 1 for v in vals) and "-" in vals:
+            vals = list(vals) if not isinstance(vals, str) else list(vals)      # "-0123456789" is a set of characters too
+            if vals and all(isinstance(v, str) and len(v) == 1 for v in vals) and "-" in vals:
                 special |= set(vals)
         if isinstance(n, ast.Compare) and isinstance(n.ops[0], ast.Eq) and isinstance(n.comparators[0], ast.Constant) \
                 and n.comparators[0].value in (".", "/"):
@@ -54,6 +56,50 @@ def rule_alphabet(ctx, py):
                       "", "the micro replacement rewrites %s into %s before it is looked up" % (l, out), nontrivial=(
                           "u" in l))
     ctx.floor(R, 90)
+
+
+def rule_expstate(ctx, py):
+    """C18.EXPSTATE -- inside one factor the exponent comes last: once an exponent character (sign or digit) has been met, every
+    further character of the factor belongs to the exponent text (and makes int() fail when it is not one), until the next
+    separator.  The tokeniser keeps that state in a flag: the symbol text grows only while the flag is down, the flag is raised by
+    an exponent character and lowered only at a separator.  Without it `m2s` reads as `ms2`, `2m` as `m2`, `mo2l` as `mol2`."""
+    R = "C18.EXPSTATE"
+    from .. import pya
+    f = py.fn("units.parse_units")
+    loops = [n for n in f.body if isinstance(n, ast.For) and pyfe.src(n.iter) in pyfe.params(f)]
+    ctx.need(len(loops) == 1, R, "parse_units: the character loop is not found")
+    lp = loops[0]
+    ch = pyfe.src(lp.target)
+    sym_app, exp_app, flag_sets = [], [], []
+
+    def on(node, facts):
+        if isinstance(node, ast.AugAssign) and isinstance(node.op, ast.Add) and pyfe.src(node.value) == ch and \
+                isinstance(node.target, ast.Subscript) and isinstance(node.target.slice, ast.Constant):
+            (sym_app if node.target.slice.value == 1 else exp_app if node.target.slice.value == 2 else []).append((node, set(facts)))
+        if isinstance(node, ast.Assign) and isinstance(node.targets[0], ast.Name) and isinstance(node.value, ast.Constant) and \
+                isinstance(node.value.value, bool):
+            flag_sets.append((node, set(facts)))
+    pya.must_facts(f, on_stmt=on)
+    ctx.need(sym_app and exp_app, R, "parse_units: the symbol / exponent text accumulation is not found")
+    flags = {pyfe.src(n.targets[0]) for n, _ in flag_sets}
+    for node, facts in sym_app:
+        down = [fl for fl in flags if (fl, False) in facts]
+        ctx.check(bool(down), R, node, f._qual, pyfe.src(node), "the symbol grows only while no exponent character has been met in "
+                  "this factor", "a character is appended to the symbol whatever came before it in the factor: text after (or "
+                  "around) an exponent is read as part of the symbol, `m2s` becomes `ms2` instead of being rejected")
+    for node, facts in exp_app:
+        up = [fl for fl in flags if (fl, True) in facts]
+        ctx.check(bool(up), R, node, f._qual, pyfe.src(node), "the exponent text takes every character once the flag is up", "")
+    ups = [(n, fs) for n, fs in flag_sets if n.value.value is True and any(n is x for x in ast.walk(lp))]
+    downs = [(n, fs) for n, fs in flag_sets if n.value.value is False and any(n is x for x in ast.walk(lp))]
+    ctx.check(bool(ups) and all(any(isinstance(a, str) and a.startswith(ch + " in ") and pol for a, pol in fs) for n, fs in ups), R,
+              ups[0][0] if ups else lp, f._qual, "flag raised by an exponent character", "", "the exponent flag is not raised by "
+              "the exponent characters")
+    ctx.check(all(any(isinstance(a, str) and pol and (a.startswith(ch + " == '.'") or a.startswith(ch + " == '/'") or "'.'" in a or "'/'" in a)
+                      for a, pol in fs) or any(isinstance(a, str) and ("'.'" in a or "'/'" in a) for a, pol in fs) for n, fs in downs),
+              R, downs[0][0] if downs else lp, f._qual, "flag lowered only at a separator", "", "the exponent flag is lowered inside "
+              "a factor")
+    ctx.floor(R, 4)
 
 
 def rule_micro(ctx, py):
@@ -377,6 +423,7 @@ def rule_blocks(ctx, py):
 def run(ctx):
     py = ctx.py
     rule_samebase(ctx, py)
+    rule_expstate(ctx, py)
     rule_value_read(ctx, py)
     rule_expsum(ctx, py)
     rule_alphabet(ctx, py)
